@@ -18,6 +18,7 @@ import (
 	"flag"
 	"fmt"
 	"os"
+	"runtime"
 	"sort"
 	"sync"
 	"sync/atomic"
@@ -330,6 +331,7 @@ type caseRun struct {
 	timeouts int
 	settled  bool // the loop went idle after the last thing it took (hc.idle after hc.resp / hc.timeout)
 	silent   bool // some check ended without any callback
+	stopped  bool // the checker did not start the next check
 	cbs      int
 	cbFor    map[int]int // check -> callbacks seen while it was the latest check
 	shifted  int         // deliveries that were not finished before the next check started
@@ -467,7 +469,9 @@ func (r *caseRun) absorb(e cev) {
 			e.rec["ev"] = "extra"
 		}
 		r.cbFor[k]++
-		r.evs = append(r.evs, e.rec)
+		if len(r.evs) < 16+8*len(r.c.Seq) { // a checker that keeps reporting without checks is cut off, not recorded for ever
+			r.evs = append(r.evs, e.rec)
+		}
 	}
 }
 
@@ -504,6 +508,7 @@ func (r *caseRun) releaseHold() {
 }
 
 const slack = 3 * time.Second
+const startSlack = 1500 * time.Millisecond // for a check that is due after hcInterval
 
 // deliver lets the late answer of check j out and waits until the loop has taken and handled it.
 func (r *caseRun) deliver(j int) {
@@ -532,7 +537,12 @@ func (r *caseRun) script() {
 		return true
 	}
 	for k := 1; k <= n; k++ {
-		r.waitFor(fmt.Sprintf("check %d starts", k), slack, func() bool { return r.answers[k] != nil })
+		if !r.tryWait(startSlack, func() bool { return r.answers[k] != nil }) {
+			// everything the checker was given has been handled and it does not start the next check
+			r.stopped = true
+			r.evs = append(r.evs, vh.Ev{"ev": "stopped", "k": k})
+			return
+		}
 		// timers of earlier checks that fired although the answer was given at once (slow machine): their checks
 		// are over, the signals stay held for ever
 		r.holds = nil
@@ -545,7 +555,7 @@ func (r *caseRun) script() {
 			r.answers[k] <- s == "ok"
 			r.waitFor("answer taken and handled", slack, func() bool { return r.resps > resp0 && r.settled })
 			// no result: the answer was dropped and the code waits for the timeout of this check: let it have it
-			for r.cbFor[k] == 0 && letTimeout(hcTimeout+time.Second) {
+			for i := 0; i < 2 && r.cbFor[k] == 0 && letTimeout(hcTimeout+400*time.Millisecond); i++ {
 			}
 		} else {
 			if latePos(s) == 0 {
@@ -557,7 +567,7 @@ func (r *caseRun) script() {
 				r.tryWait(300*time.Millisecond, func() bool { return r.timeouts > t0 && r.settled })
 			}
 			// a signal that is dropped belonged to an earlier check whose timer fired late: wait for the right one
-			for r.cbFor[k] == 0 && letTimeout(hcTimeout+time.Second) {
+			for i := 0; i < 2 && r.cbFor[k] == 0 && letTimeout(hcTimeout+400*time.Millisecond); i++ {
 			}
 			if latePos(s) == 1 {
 				r.deliver(k)
@@ -614,6 +624,16 @@ func runThr(casesPath, tracePath string, par int) {
 	info := cl.Snapshot().ClusterInfo()
 	vh.Sink(thrSink)
 	defer vh.Sink(nil)
+	go func() { // the harness must never eat the machine
+		for {
+			time.Sleep(time.Second)
+			var m runtime.MemStats
+			runtime.ReadMemStats(&m)
+			if m.Sys > 6<<30 {
+				vh.Must(fmt.Errorf("driver uses %d MB", m.Sys>>20), "memory guard")
+			}
+		}
+	}()
 	cases := []thrCase{}
 	vh.Must(vh.ReadCases(casesPath, func(raw json.RawMessage) error {
 		var c thrCase
@@ -642,8 +662,8 @@ func runThr(casesPath, tracePath string, par int) {
 				status := ""
 				for attempt := 0; attempt < 3; attempt++ {
 					r, status = w.run(cases[i])
-					// a check without any result is judged only when it happens in every attempt
-					if status == "ok" && !(r.silent && attempt < 2) {
+					// a check without any result / a checker that stops checking is judged only when it happens again
+					if status == "ok" && !((r.silent || r.stopped) && attempt < 1) {
 						break
 					}
 					atomic.AddInt64(&nRetry, 1)
